@@ -121,3 +121,49 @@ def run(F, R):
         R.check(via, "R24.3", "set_upload-path-from-map-entry", c.where(), "path derives from map.remove(&name)", "set_upload path does not come from the file's map entry")
     gm = [c for x in fam for c in x.calls_to(r"slice::\{impl#\d+\}::get_mut$|vec::\{impl#\d+\}::get_mut$")]
     R.check(bool(gm), "R24.3", "batch-index-checked-lookup", b.where(), "requests.get_mut(idx)", "batch request index is not a checked lookup")
+
+    R.rule("R24.4", "binding does not depend on the order of the parts: on the way to `files.push(..)` no branch is decided by the state the other parts "
+                    "fill in (the locals `map` and `request`); file parts seen before the map are kept")
+    from factlib import _ops_of_rvalue
+
+    def back_locals(x, op):
+        seen = set()
+        work = [op[1][0]] if op[0] in ("c", "m") else []
+        while work:
+            l = work.pop()
+            if l in seen:
+                continue
+            seen.add(l)
+            for bb, s in x.defs_of_local(l):
+                r = s[1]
+                ops = list(r[1].args) if r[0] == "callret" else _ops_of_rvalue(r)
+                for o_ in ops:
+                    if o_[0] in ("c", "m"):
+                        work.append(o_[1][0])
+                    elif o_[0] == "k":
+                        pass
+                # closures capture by reference: follow the captured places
+                if r[0] == "agg" and r[1] == "closure":
+                    for o_ in r[5]:
+                        if o_[0] in ("c", "m"):
+                            work.append(o_[1][0])
+        return seen
+
+    fl = set(b.var_local("files"))
+    state = set(b.var_local("map")) | set(b.var_local("request"))
+    pushes = [c for c in b.calls_to(r"vec::\{impl#\d+\}::push$") if c.args and c.args[0][0] in ("c", "m") and back_locals(b, c.args[0]) & fl]
+    R.floor("R24.4", "files.push sites", len(pushes), 1)
+    R.check(bool(state) and bool(fl), "R24.4", "anchors:files/map/request-locals", b.where(), "locals found", "the locals files / map / request of receive_batch_multipart were not found")
+    for c in pushes:
+        bad = []
+        for sbb, t in b.switches():
+            if not b.dominates(sbb, c.bb) or t[1][0] not in ("c", "m"):
+                continue
+            succs = b.succ(sbb)
+            if all(c.bb in b.reachable(s_, avoid=[sbb]) or s_ == c.bb for s_ in succs if not b.is_unreachable_block(s_)):
+                continue  # not a guard of the push
+            if back_locals(b, t[1]) & state:
+                bad.append("%s:%s" % (b.file, (b.stmts(sbb)[-1][2] if b.stmts(sbb) else "?")))
+        R.check(not bad, "R24.4", "files.push:independent-of-map/request-state", c.where(), "no guard of the push reads map / request",
+                "whether a file part is kept depends on the map / operations parts already received (guards at %s): a body that sends a file part before its map "
+                "entry loses that file (MissingFiles) although the same parts in another order bind" % ", ".join(bad))
